@@ -74,6 +74,7 @@ def run(ctx, chk):
     for inst, pb, sample in headerx.header_problems(ctx):
         if "magic number)" in inst and "swapped" not in inst:
             chk.check(R5, pb is None, "parse_header:bound=word 3,version=word 1", "%s %s" % (inst, pb), raw.where("parse_header", "Parser"), sample=sample)
+    headerx.report(chk, R5, raw, headerx.header_api_problems(ctx), only=["ModuleHeader::new", "ModuleHeader::assemble_into"], keyp="C01")
     from . import c06
     # version pack/unpack inverse (R-VER of C06) is evaluated there; re-evaluate the two functions here
     from . import lookx, asmx
